@@ -57,8 +57,9 @@ C04_Returns(R) == R.e = "ret"                                \* not abort{budget
 C04_Honest(C, R) == (R.e = "ret" /\ IsSol(R) /\ C.errctl) => R.finite
 
 (* ---------------------------------------------------------------- C05 (recorded runs) *)
+\* (C.tin: every requested time lies inside the span, as the property presupposes)
 C05_Recorded(C, R) ==
-    (IsSol(R) /\ C.hasT) =>
+    (IsSol(R) /\ C.hasT /\ C.tin) =>
       LET body == IF R.status = "UserInterrupt" /\ Len(R.t) >= 1 THEN Front(R.t) ELSE R.t
           te   == C.teval
       IN  /\ IsPrefixOf(Toks(body), Toks(te))                                     \* exactly the requested times, bit for bit, in order
